@@ -659,7 +659,8 @@ class Facts:
 
     def coroutine_of(self, fn_name):
         """the async body of an `async fn` (its {closure#0})"""
-        return self.bodies.get(fn_name + "::{closure#0}")
+        b = self.bodies.get(fn_name + "::{closure#0}")
+        return b if b is not None and "Fn" in str(b.coroutine) else None  # `Desugared(Async, Fn)`; an async *block* inside a sync fn is not its body
 
     def ret_atoms(self, name):
         """atoms the return value of a local body derives from (minus its own params), following into the coroutine of async fns"""
@@ -1024,7 +1025,7 @@ class ViewBuilder:
             if cn not in self.raw or not self.inlinable(cn, name):
                 continue
             co_name = cn + "::{closure#0}"
-            is_async = co_name in self.raw and self.f.bodies[co_name].coroutine
+            is_async = co_name in self.raw and "Fn" in str(self.f.bodies[co_name].coroutine)
             if is_async:
                 a = aw_by_call.get(blk["id"])
                 if a is None:
